@@ -151,8 +151,10 @@ impl LeastSquaresProblem<f64, Dyn, U6> for PointsToMesh<'_> {
         for (i, (p, c)) in self.moved.iter().zip(self.closest.iter()).enumerate() {
             let values = match self.mode {
                 // A point lying on the surface has no direction to its closest point, the surface
-                // normal is the limit of that direction from either side
-                DistMode::ToPoint if dist(p, &c.point) < 1e-10 => {
+                // normal is the limit of that direction from either side. The test is the one
+                // below which `point_point_jacobian` returns a row of zeros, so that no sample is
+                // left without a derivative
+                DistMode::ToPoint if (p - c.point).norm_squared() < 1e-16 => {
                     point_plane_jacobian(p, c, &self.params)
                 }
                 DistMode::ToPoint => point_point_jacobian(p, &c.point, &self.params),
